@@ -29,7 +29,8 @@ RULE = (
     "entries under surviving keys evaluate to the observed values; (5) a nested snapshot( keeps its wrapper "
     "unless its holding element was removed. The comparison is executed once, twice in a loop (the argument "
     "is evaluated again and user-controlled slots are re-bound) or never (then only `update` may touch the "
-    "text, and never a user-controlled part or a star container). non-trivial = >= 1 user-controlled and >= 1 managed sibling with "
+    "text, and never a user-controlled part or a star container). Arm star_getitem: `snapshot({**COMMON, ...})[key]` "
+    "with generated keys / values / approved sets: the dict display keeps its whole text. non-trivial = >= 1 user-controlled and >= 1 managed sibling with "
     "a pending change in the same container."
 )
 ASSUMPTIONS = [
@@ -129,6 +130,13 @@ def _container(draw, depth, tier, base=0):
         for e in elems:
             if e["op"] == "deleted":
                 unchanged_fresh(e)
+    # collisions: the new value of one element is the old value of another one (an inner snapshot holding 1 next
+    # to an element that becomes 1), so that an alignment by value and the positions disagree
+    cands = [e for e in elems if e["type"] in ("m", "is", "snap") and e["op"] != "deleted"]
+    if len(cands) >= 2 and draw(st.integers(0, 3)) == 0:
+        a, b = draw(st.permutations(cands))[:2]
+        if a["old"] != b["old"] and not (a["type"] == "m" and a["old"][0] != b["old"][0]):
+            a["op"], a["new"] = "changed", b["old"]
     for _ in range(0 if stable else draw(st.integers(0, 2))):
         pos = draw(st.integers(0, n))
         v = ["int", 8000 + base + len(inserts)]
@@ -519,6 +527,52 @@ def check(case):
             "sample": {"F": F, "before": src, "after_arg": new_arg}}
 
 
+# ---------------------------------------------------------------------------- [key] on a star dict
+
+
+@st.composite
+def _star_getitem_case(draw, tier):
+    common = draw(st.sampled_from(["{}", "{'z': 0}", "{'z': 0, 'y': 1}"]))
+    entries = []
+    for k in draw(st.lists(st.sampled_from(["a", "b", "c"]), min_size=1, max_size=3, unique=True)):
+        entries.append([k, draw(st.sampled_from(["0+1", "[Is(X), 2]", "snapshot(5)", "'s'", "[1, 2]"]))])
+    star_pos = draw(st.integers(0, len(entries)))
+    access = [[draw(st.sampled_from(["a", "b", "c", "z", "new"])), draw(st.sampled_from(["1", "[1, 3]", "5", "'s'", "7"]))]
+              for _ in range(draw(st.sampled_from([1, 2, 3])))]
+    return {"common": common, "entries": entries, "star_pos": star_pos, "access": access, "F": draw(flag_sets())}
+
+
+def check_star_getitem(case):
+    """snapshot({**COMMON, ...})[key]: a dict display with a star-expression is left to the user as a whole"""
+    import warnings
+
+    parts = [f"{k!r}: {v}" for k, v in case["entries"]]
+    parts.insert(case["star_pos"], "**COMMON")
+    old_text = "{" + ", ".join(parts) + "}"
+    lines = ["from inline_snapshot import snapshot, Is", "from vf_prelude import *", "", f"COMMON = {case['common']}", "X = 1",
+             "", "", "def test_a():", f"    s = snapshot({old_text})"]
+    for k, x in case["access"]:
+        lines += ["    try:", f"        assert {x} == s[{k!r}]", "    except Exception:", "        pass"]
+    src = "\n".join(lines) + "\n"
+    F = case["F"]
+    with warnings.catch_warnings():
+        warnings.simplefilter("ignore")
+        ses = drivers.run_inline({"test_a.py": src}, set(F))
+    if not ses.ok():
+        err = ses.exec_error or ses.collect_error or ses.apply_error
+        raise Violation(f"session-exception:{type(err).__name__}", f"F={F} {type(err).__name__}: {err}\n{src}")
+    after = ses.files_after["test_a.py"].decode("utf-8")
+    try:
+        new_arg = oracles.site_arg_texts(after)[0]
+    except Exception as e:
+        raise Violation("unparsable", f"F={F} {e}\n--- before\n{src}\n--- after\n{after}")
+    if oracles.masked(new_arg, None) != oracles.masked(old_text, None):
+        raise Violation("star-container-rewritten",
+                        f"F={F} a dict display holding a star-expression was edited through [key]\n--- before\n{src}\n--- after\n{after}")
+    return {"nontrivial": bool(F), "classes": ["star-getitem", "F=" + ",".join(F)], "sample": {"F": F, "before": src}}
+
+
 # few, long shards: hypothesis ramps the size of its examples up over the first hundreds of examples of a run
 ARMS = [HypArm("mixed", _strategy, check, budget={"quick": 6000, "thorough": 200000},
-               shards={"quick": 6, "thorough": 32})]
+               shards={"quick": 6, "thorough": 32}),
+        HypArm("star_getitem", _star_getitem_case, check_star_getitem, budget={"quick": 400, "thorough": 10000})]
